@@ -5,6 +5,9 @@ from vf.explore import Explorer
 from vf.sched import Sched
 
 
+BUDGET_S = {"quick": 150, "thorough": 3 * 3600}       # wall budget of ONE exploration (reported as a cap when it is hit)
+
+
 def _preimport():
     """import every library module up front: a first import performed inside a scheduled thread holds the interpreter's
     per-module import lock (not a lock the scheduler owns) while the thread is suspended at a line of the module body, and
@@ -86,8 +89,10 @@ def explore_calls(acc, calls, files, bound, judge, kind, case, max_exec=50_000, 
     stack = [[]]
     n_exec = transitions = skipped_hits = 0
     capped = False
+    import time as _time
+    t_end = _time.time() + (BUDGET_S["quick"] if acc.job.get("tier", "quick") == "quick" else BUDGET_S["thorough"])
     while stack:
-        if n_exec >= max_exec:
+        if n_exec >= max_exec or _time.time() > t_end:
             capped = True
             break
         prefix = stack.pop()
@@ -109,7 +114,8 @@ def explore_calls(acc, calls, files, bound, judge, kind, case, max_exec=50_000, 
                     continue
                 stack.append(r["choices"][:i] + [alt])
     if capped:
-        acc.caps.append(f"{acc.job['name']}: concurrent-call exploration stopped after {n_exec} executions")
+        acc.caps.append(f"{acc.job['name']}: concurrent-call exploration stopped after {n_exec} executions (execution cap {max_exec} / time budget; "
+                        f"{len(stack)} schedules left unexplored)")
     acc.executions += n_exec
     acc.evaluations += n_exec
     acc.states += n_exec
